@@ -94,6 +94,12 @@ func ForceSelfClosingTags(b []byte) []byte {
 			continue
 		}
 
+		if bytes.HasSuffix(openingTagContents, []byte("/")) {
+			// an already self closed tag (with attributes) that happens to be the last child of
+			// a parent of the same name, the closing tag we matched is the parent's
+			continue
+		}
+
 		b = bytes.ReplaceAll(
 			b,
 			fullMatch,
